@@ -46,6 +46,13 @@ Lemma generic_keys_filtered_refuted :
   /\ model_roundtrip (w_generic_keys_filtered_u, w_generic_keys_filtered_k) = false.
 Proof. vm_compute. repeat split. Qed.
 
+Lemma best_match_guess_refuted :
+  is_typed (w_best_match_guess_u, w_best_match_guess_k) = true
+  /\ clauses_failing (w_best_match_guess_u, w_best_match_guess_k) = [3]
+  /\ decode_ambiguous (w_best_match_guess_u, w_best_match_guess_k) = false
+  /\ model_roundtrip (w_best_match_guess_u, w_best_match_guess_k) = false.
+Proof. vm_compute. repeat split. Qed.
+
 Lemma guard_inhabited :
   in_proved_slice (w_inside_slice_u, w_inside_slice_k) = true
   /\ in_proved_slice (w_inside_slice_filter_none_u, w_inside_slice_filter_none_k) = true
